@@ -656,6 +656,27 @@ def r24_14(ctx, rep):
            "the block is `%s`: the generated model's equations are not (only) the class's equations in their order" % " ".join(hit.split())[:120])
 
 
+@SPEC.rule(
+    "R24.15",
+    "only the built-in time is the independent variable: the test in SympyGenerator.exitComponentRef that maps a reference to `self.t` compares "
+    "the whole name with 'time' — no endswith / startswith / `in`: a component's own variable `c.time` (mangled `c__time`) is a model variable",
+)
+def r24_15(ctx, rep):
+    R = "R24.15"
+    fn = ctx.func(SYM, CLS + ".exitComponentRef", R)
+    site = "%s:%s.exitComponentRef" % (SYM, CLS)
+    n = 0
+    for st in ast.walk(fn):
+        if isinstance(st, ast.If) and any(isinstance(c, ast.Constant) and isinstance(c.value, str) and "time" in c.value for c in ast.walk(st.test)):
+            n += 1
+            t = st.test
+            exact = isinstance(t, ast.Compare) and len(t.ops) == 1 and isinstance(t.ops[0], (ast.Eq, ast.NotEq)) and (
+                const_str(t.comparators[0]) == "time" or const_str(t.left) == "time")
+            rep.ob(R, site, "the time test compares the whole name", exact, "the test is `%s`" % norm(t)[:80])
+    if n < 1:
+        raise MechanismMissing(R, "the mapping of `time` to the independent variable was not found in exitComponentRef")
+
+
 # -- seeded variants ---------------------------------------------------------
 from ._mut import replace_in_func  # noqa: E402
 
